@@ -27,7 +27,7 @@ pub(crate) fn tuple(attr: &StructAttr, ts_name: Expr, fields: &FieldsUnnamed) ->
             format!(
                 "[{}]",
                 // typed, since there may be no fields left after `#[ts(skip)]`
-                <[String]>::join(&[#(#formatted_fields),*], ", ")
+                <[std::string::String]>::join(&[#(#formatted_fields),*], ", ")
             )
         },
         inline_flattened: None,
